@@ -304,10 +304,41 @@ fn random_doc(rng: &mut Rng) -> Vec<AEv> {
         out.push(AEv::new("ME", 0, "", "p", ""));
         if a != 0 { map_anchors.push(a); }
     };
+    // now and then a base for the OUTER mapping under a key the types ignore: it supplies whole nested values (an Inner, the
+    // list of Inners) through `<<`, so that failing fields sit below a merge-supplied value
+    let mut supplied: Vec<usize> = vec![];
+    let mut outer_base = 0u32;
+    if rng.chance(1, 3) {
+        outer_base = next_anchor;
+        next_anchor += 1;
+        out.push(sc("obase"));
+        out.push(AEv::new("MS", outer_base, "", "p", ""));
+        for f in 0..3usize {
+            if rng.chance(2, 3) {
+                supplied.push(f);
+                match f {
+                    0 => { out.push(sc("first")); inner(rng, &mut out, &mut map_anchors, &mut next_anchor); }
+                    1 => { out.push(sc("subItem")); inner(rng, &mut out, &mut map_anchors, &mut next_anchor); }
+                    _ => {
+                        out.push(sc("items"));
+                        out.push(AEv::new("SS", 0, "", "p", ""));
+                        for _ in 0..1 + rng.below(3) { inner(rng, &mut out, &mut map_anchors, &mut next_anchor); }
+                        out.push(AEv::new("SE", 0, "", "p", ""));
+                    }
+                }
+            }
+        }
+        out.push(AEv::new("ME", 0, "", "p", ""));
+        if supplied.is_empty() { outer_base = 0; }
+    }
     let mut order = vec![0, 1, 2, 3];
+    if outer_base != 0 { order.push(8); }
     for i in (1..order.len()).rev() { let j = rng.below(i + 1); order.swap(i, j); }
     for f in order {
+        // a field the base supplies is mostly left to the merge (written here, it would shadow the merged one)
+        if outer_base != 0 && supplied.contains(&f) && rng.chance(3, 4) { continue; }
         match f {
+            8 => { out.push(sc("<<")); out.push(AEv::new("AL", outer_base, "", "p", "")); }
             0 => { out.push(sc("first")); inner(rng, &mut out, &mut map_anchors, &mut next_anchor); }
             1 => { out.push(sc("subItem")); inner(rng, &mut out, &mut map_anchors, &mut next_anchor); }
             2 => {
